@@ -300,9 +300,8 @@ def _teardown():
 
 
 def _join_oneway_threads():
-    for t in threading.enumerate():
-        if t.name == "oneway-call":
-            t.join(30)
+    from vlib import live
+    live.join_oneway_threads(30)
 
 
 def _state(obj):
